@@ -229,7 +229,9 @@ def run_job(job: dict) -> dict:
         held = scatter(mix(cfg["layout"], idx)) if cfg.get("layout") else None
         if kind == "gen":
             ch = Choices(replay=choices) if choices is not None else Choices(seed=val)
-            r = run_program(ch, job.get("params", {}), f"c10_p{idx}", idx)
+            # the user's module name is an input too: some look like library modules
+            r = run_program(ch, job.get("params", {}),
+                            ("c10_p{}", "c10_p{}", "guppylang_user_p{}", "tests.c10_p{}")[idx % 4].format(idx), idx)
             r["choices"] = ch.record if job.get("want_choices") else None
         elif kind == "itest":
             r = run_itest(val)
